@@ -101,7 +101,7 @@ class Gen:
             if kind in scen.IKINDS:
                 lo, hi = int_range(kind)
                 return r.choice([b"abc", b"", b"1.5", b" 1", str(hi + 1).encode(), str(lo - 1).encode(), b"0x1g", b"--1", b"1_0"])
-            if kind in ("float32", "float64"): return r.choice([b"abc", b"1e", b"1e400", b"", b"1,5", b"3.5e38" if kind == "float32" else b"1e309"])
+            if kind in ("float32", "float64"): return r.choice([b"abc", b"1e", b"1e400", b"", b"1,5"] + ([b"3.5e38", b"-1e39", b"3.5e38"] if kind == "float32" else [b"1e309"]))
             if kind == "duration": return r.choice([b"1", b"h", b"1x", b"", b"1h2"])
         if kind == "bool": return r.choice([b"true", b"false", b"1", b"0", b"t", b"F", b"TRUE", b"False"])
         if kind in scen.IKINDS:
@@ -113,7 +113,8 @@ class Gen:
             if 2 <= base <= 36:
                 t = fmt_base(n, base)
                 if r.random() < 0.1 and n >= 0 and not kind.startswith("u"): t = "+" + t
-                if r.random() < 0.1: t = t.replace("-", "-0") if n < 0 else "0" + t
+                if r.random() < 0.1:
+                    t = t.replace("-", "-0") if n < 0 else (t.replace("+", "+0") if t.startswith("+") else "0" + t)
                 return t.encode()
             if base == 0:
                 form = r.choice(["d", "x", "o", "b", "0"])
@@ -122,8 +123,8 @@ class Gen:
                 return (("-" if n < 0 else "") + t).encode()
             return str(n).encode()
         if kind == "float32": return r.choice([b"1.5", b"-2.25", b"1e3", b"3.4e38", b"0", b"-0", b".5", b"16777217", b"0.1", b"1e-45", b"-1.5e-3", b"inf", b"+Inf", b"0x1p-2", b"1_0",
-                                               # beyond float32 but within float64 (rejected), and a decimal just above a rounding midpoint (no double rounding)
-                                               b"3.5e38", b"-1e39", b"1.00000005960464477539062500000000000001"])
+                                               # a decimal just above a rounding midpoint (no double rounding); out-of-range texts are among the invalid ones
+                                               b"1.00000005960464477539062500000000000001"])
         if kind == "float64": return r.choice([b"1.5", b"-2.25", b"1e3", b"1.7976931348623157e308", b"0", b".5", b"-.5", b"0.1", b"5e-324", b"123456789.123456789", b"-Inf", b"infinity", b"1e308", b"-7"])
         if kind == "duration": return r.choice([b"1h", b"2m30s", b"1.5s", b"300ms", b"-1h", b"0", b"1h2m3s4ms5us6ns", b"2562047h", b"1us", b"+5m", b".5h"])
         if kind == "custom": return strgen.rstr(r, 5, p_bad=0.02)
@@ -158,7 +159,7 @@ class Gen:
             vt = self.scalar_text(t[2], base, valid)
             x = r.random()
             if x < 0.06 and (t[2] in ("string", "bool", "custom") or not valid): return kt            # no colon: empty value
-            if x < 0.16 and (t[2] in ("string", "custom") or x < 0.09):
+            if x < 0.16 and (t[2] in ("string", "custom") or (x < 0.09 and not valid)):
                 # further colons belong to the value (SplitN at the first one)
                 vt = r.choice([vt + b":" + vt, b"http://host:80", b":", b"::", vt + b":", b":" + vt, b"12:30:05", b"true:x"])
                 if t[2] == "custom": vt = vt.lstrip(b"!") or b"c"
